@@ -186,5 +186,6 @@ pub fn run(run: &Run) {
     run.explore(&super::c11::EmbeddedTlv { n: run.tier.pick(6, 8) });
     run.explore(&super::c11::EmbeddedText { n: run.tier.pick(6, 8) });
     run.explore(&super::c11::EmbeddedStructured::new(false));
+    run.explore(&super::c11::NearMaxStructured { span: run.tier.pick(35, 135) });
     explore_all(run, &seq_universes(run.tier, true, true));
 }
